@@ -28,7 +28,12 @@ def BinOp.lvl : BinOp → Nat
 
 /-- the tokens of the operator (`j` = queue position of an operator *name*, irrelevant to the op map) -/
 def BinOp.toks (j : Int) : BinOp → List Tok
-  | .ne => [.bang, .eq] | .eq => [.eq] | .le => [.lt, .eq] | .lt => [.lt] | .ge => [.gt, .eq] | .gt => [.gt]
+  | .ne => if compoundOperatorTokens then [.neq] else [.bang, .eq]
+  | .eq => [.eq]
+  | .le => if compoundOperatorTokens then [.leq] else [.lt, .eq]
+  | .lt => [.lt]
+  | .ge => if compoundOperatorTokens then [.geq] else [.gt, .eq]
+  | .gt => [.gt]
   | .plus => [.plus] | .minus => [.minus] | .mult => [.star] | .div => [.name .div j] | .mod => [.name .mod j]
 
 inductive E
